@@ -7,7 +7,7 @@ SPEC = {
     "rule": "bounded-exhaustive: every sequence with repetition of length <= 3 (quick) / <= 4 (thorough) over a 14-entry pool "
             "(= all subsets x all permutations, plus all multiplicities) mixing ULA/GUA/link-local/IPv4, lengths 48/64/128, each flag, "
             "two hosts per /64, the edges of fe80::/10; random lists up to length 40 (exact duplicates, IPv4, IPv4-mapped, random "
-            "lengths/flags, wildcard lengths other than 64); listing failure and unprepared plugin. rtnetlink layer (real linux addresser, scripted execute): every failure class (ENODEV, ENOBUFS, "
+            "lengths/flags, wildcard lengths other than 64); listing failure and unprepared plugin; in half of the cases the injected clock advances on every reading (1 ns .. 7 s, half the preferred lifetime) so that all options of one RA must carry the lifetimes of the first reading. rtnetlink layer (real linux addresser, scripted execute): every failure class (ENODEV, ENOBUFS, "
             "EMFILE, EINTR, opaque) x nil messages / partial dump x 0..3 messages for addresses and routes; the flag table (21 flag words incl. every "
             "documented bit, ignored bits, neighbours, all-ones x 7 valid-lifetime values); every prefix length 0..128; route preference absent / 0..4 / 255; "
             "random dumps of 0..6 messages (25% failing); LoopbackRoutes with a failing route request (assertion only). Non-trivial = at least two listed "
